@@ -27,7 +27,7 @@ ASSUMPTIONS = [
 COMPONENTS = {"real": ["TradingEnv.step", "Broker.rebalance/net_liquidation_value", "rewards.*", "Transmitter", "Exchange"],
               "harness": ["shock generator", "independent Fraction ledger"], "stub": []}
 PROBE_FLOORS = {"ruin_on_arrival": 21, "ruin_post_trade": 100, "ruin_exactly_zero": 20, "ruin_on_first_step": 36,
-                "ruin_by_own_costs": 50, "steps_attempted_after_end": 300, "recovery_after_ruin": 50, "reset_after_ruin_works": 20, "ruin_inside_spread_band": 12, "end_of_episode_handler_failed": 10, "ruin_episode_replayed": 120}
+                "ruin_by_own_costs": 50, "steps_attempted_after_end": 300, "recovery_after_ruin": 50, "reset_after_ruin_works": 20, "ruin_inside_spread_band": 12, "end_of_episode_handler_failed": 10, "ruin_episode_replayed": 120, "insolvent_only_after_interest_is_charged": 25}
 
 
 def generate(rng, i):
@@ -42,6 +42,7 @@ def generate(rng, i):
     phase = rng.choice(["latent", "nonlatent", "nonlatent", "own_costs"]) if lat_us else rng.choice(["nonlatent", "nonlatent", "own_costs"])
     if exact and phase == "own_costs":
         phase = "nonlatent"
+    interest_arm = (not exact) and phase == "nonlatent" and rng.random() < 0.12
     lat = timedelta(microseconds=lat_us)
     kind = rng.choice(["ETF", "spot", "margined", "future"])
     if exact:
@@ -81,12 +82,21 @@ def generate(rng, i):
         f = crit * rng.uniform(1.05, 3.0)
     kshock = rng.randint(1, n - 2)
     p = 64.0 if exact else rng.choice([10.0, 100.0, 2500.0])
+    if interest_arm:
+        # the account survives the shock with 1% of its equity, then 200 days pass: the interest owed on the borrowed
+        # cash exceeds what is left, so the account is insolvent when the next decision arrives - only once the
+        # interest of the elapsed period is counted
+        w = rng.choice([2.0, 3.0])
+        spread, band = 0.0, False
+        f = 1 - (1 - 0.01) / w
+        # the long gap lies between the last rebalance before the shock and the shocked bar (no decision in between)
+        grid = grid[:kshock] + [grid[kshock - 1] + timedelta(days=200) + timedelta(seconds=gap * j) for j in range(len(grid) - kshock)]
     events = []
 
     def add(t, c, mid):
         events.append({"t": core.iso(t), "type": "nbbo", "c": c, "bid": mid * (1 - spread / 2), "ask": mid * (1 + spread / 2), "id": len(events)})
 
-    recovery = rng.random() < 0.4 and phase != "own_costs"
+    recovery = rng.random() < 0.4 and phase != "own_costs" and not interest_arm
     for k, g in enumerate(grid):
         shocked = (k > kshock) or (k == kshock and phase == "nonlatent")
         if phase == "latent":
@@ -107,8 +117,10 @@ def generate(rng, i):
     fees = {"fixed": 0.0, "prop": 0.0, "markup": 0.0}
     if phase == "own_costs":
         fees["fixed"] = cash * rng.choice([0.6, 1.1, 0.35])
-    elif not exact and rng.random() < 0.3:
+    elif not exact and rng.random() < 0.3 and not interest_arm:
         fees["prop"] = 1e-4
+    if interest_arm:
+        fees["markup"] = rng.choice([0.05, 0.2])
     env = {
         "contracts": specs, "grid": [core.iso(g) for g in grid], "grid_input": list(range(n)), "events": events,
         "latency_us": lat_us, "delay": 0, "reward": rng.choice(gen_epi.REWARDS), "fees": fees, "cash": cash,
@@ -142,7 +154,7 @@ def generate(rng, i):
         for k in range(rng.randint(1, 2)):
             script.append({"op": "step", "env": 0, "action": [0.0] * (2 if two else 1)})
     return {"kind": "epi", "envs": [env], "clock0": "1999-01-01T00:00:00", "script": script, "prng": rng.randrange(2 ** 31),
-            "meta": {"phase": phase, "w": w, "f": f, "kshock": kshock, "exact": exact, "recovery": recovery, "band": band, "replay": replay}}
+            "meta": {"phase": phase, "w": w, "f": f, "kshock": kshock, "exact": exact, "recovery": recovery, "band": band, "replay": replay, "interest_arm": interest_arm}}
 
 
 def execute(scenario):
@@ -236,6 +248,8 @@ def execute(scenario):
                 if nd[0] == "value" and nd[1] != nlv_end:
                     violate("valuation_signal", "net_liquidation_value() {} != net_liquidation_value(raise_if_broke=False) {}".format(nd[1], nlv_end), op=k, kind="mismatch")
                     break
+            if phase is not None and meta.get("interest_arm") and any(F(r["rebalancing"]["interest"] or 0) < 0 for r in ex):
+                probe("insolvent_only_after_interest_is_charged")
             if phase is not None:
                 ruin_seen = True
                 probe({"arrival": "ruin_on_arrival", "post_trade": "ruin_post_trade", "own_costs": "ruin_by_own_costs"}[phase])
